@@ -132,6 +132,13 @@ func c29Hello(fixedPart bool) {
 			valid = false
 		}
 	}
+	if fixedPart && vr.Bool("manySuites") {
+		// a concrete filler takes the list to 127..129 suites, across the point where its
+		// byte length no longer fits one octet
+		for i := 0; i < 127; i++ {
+			f.CipherSuites = append(f.CipherSuites, TLS_RSA_WITH_AES_128_CBC_SHA)
+		}
+	}
 	f.CompressionMethods = []uint8{0}
 	if fixedPart {
 		f.CompressionMethods = c30bs("comp", 0, 2)
